@@ -362,11 +362,39 @@ static Case gen_c04_parity() {
     g.k = t.k; g.m = t.m; g.hd = t.m; g.w = t.w; g.ct = CT_NONE;
     cfg_to(c, g);
     size_t bs = 2 * (size_t)pick(1, 2048);
+    // one case in five: a fragment payload on a cache-blocking boundary - (2^a / streams) rounded down to an
+    // alignment, times a small factor; streams in {1, 2, k, k+1, m, k+m}
+    bool blocking = coin(1, 5);
+    if (blocking) {
+        int ds[] = {1, 2, g.k, g.k + 1, g.m, g.k + g.m};
+        size_t al = (size_t[]){2, 16, 64}[pick(0, 2)];
+        size_t cap = (size_t)1 << (opts().tier == "thorough" ? 21 : 20);
+        bs = ((((size_t)1 << pick(12, 19)) / ds[pick(0, 5)]) & ~(al - 1)) * (size_t)pick(1, 3);
+        bs = std::max<size_t>(2, bs & ~(size_t)1);
+        while (bs * g.k > cap && bs % 4 == 0) bs /= 2;
+        if (bs * g.k > cap) bs = 2 * (size_t)pick(1, 2048);
+    }
     size_t len = bs * g.k;
     if (coin(1, 4)) len = len > 0 ? len - (size_t)pick(0, std::min<int64_t>(len - 1, 2 * g.k)) : 0;
-    len = std::min<size_t>(len, 1 << 17);
+    if (!blocking) len = std::min<size_t>(len, 1 << 17);
     gen_buffer(c, "data", len);
     return c;
+}
+// enumerated cache-blocking boundaries: payload = ((2^a / streams) & ~(align-1)) * factor
+static void sweep_c04_blocking() {
+    int shard = (int)opts().shard, ns = (int)opts().nshards, counter = 0;
+    bool th = opts().tier == "thorough";
+    for (int k : {1, 2, 3, 4, 5, 6, 7, 10, 15, 20}) for (int a = 14; a <= (th ? 20 : 18); a++) for (int dsel = 0; dsel < 3; dsel++) for (size_t al : {16, 64}) for (int f = 1; f <= 2; f++) {
+        if ((counter++ % ns) != shard) continue;
+        Config g; g.backend = ref::B_RS; g.k = k; g.m = 1 + counter % 3; g.hd = g.m; g.w = 16; g.ct = CT_NONE;
+        int d = dsel == 0 ? 1 : dsel == 1 ? k : k + 1;
+        size_t bs = ((((size_t)1 << a) / d) & ~(al - 1)) * f;
+        if (bs < 2 || bs * k > ((size_t)1 << (th ? 22 : 21))) continue;
+        Case c; cfg_to(c, g);
+        c.set("data_cls", BUF_RANDOM); c.set("data_seed", 77000 + counter); c.set("data_len", (int64_t)(bs * k));
+        sweep_case(c, run_c04_parity);
+    }
+    stats().exhaustive = true;
 }
 
 // ============================================================================================ C05
@@ -561,6 +589,7 @@ int main(int argc, char **argv) {
     h.mode("c08", [] { rc_property("C08 sizes", gen_c08, run_c08); }, run_c08);
     h.mode("c08_sweep", sweep_c08, run_c08);
     h.mode("c04_matrix", sweep_c04, run_c04_matrix);
+    h.mode("c04_blocking", sweep_c04_blocking, run_c04_parity);
     h.mode("c04_parity", [] { rc_property("C04 parity closed form", gen_c04_parity, run_c04_parity); }, run_c04_parity);
     h.mode("c04_parity_mt", [] { rc_property("C04 parity closed form under concurrent encodes", gen_c04_parity_mt, run_c04_parity_mt); }, run_c04_parity_mt);
     h.mode("c05_tables", sweep_c05_tables, run_c05_tables);
